@@ -220,10 +220,12 @@ type Devices struct {
 	// write log of the drive: cumulative file size after each write
 	WriteEnds []int64
 	// monitors
-	NonAppend   []string // writes that did not land at the end of the drive file
-	WriterOpens int
-	OpenHandles int
-	IndexMut    map[string]int // mutating index-store calls per method
+	NonAppend     []string // writes that did not land at the end of the drive file
+	WriterOpens   int
+	PartialAppend bool // a call failed after it had appended bytes to the tape
+	InitFailed    bool // an Initialize (reopen) returned an error; the instance is used nevertheless
+	OpenHandles   int
+	IndexMut      map[string]int // mutating index-store calls per method
 }
 
 func NewDevices(s *Sched) *Devices {
